@@ -50,9 +50,9 @@ def parse_dump(path):
         vars_ = {}
         for m in re.finditer(r"/\\ (\w+) = (.*?)(?=\n/\\ |\Z)", block.strip(), flags=re.S):
             vars_[m.group(1)] = m.group(2)
-        res = tla_to_py(vars_["res"])
+        res = tla_to_py(vars_["vout"])
         if res:
-            out.append((tla_to_py(vars_["inp"]), res))
+            out.append((tla_to_py(vars_["vin"]), res))
     return out
 
 
@@ -242,34 +242,40 @@ def check_input(inp, res, C, scale, variant, light):
     return mism, calls, diag_cells
 
 
-_TAB = None
+_CONST = None
 
 
 def warmup():
     import biotite.structure  # noqa: F401
 
-    global _TAB
-    if "C14_TABLE" in os.environ and _TAB is None:
-        with open(os.environ["C14_TABLE"]) as f:
-            _TAB = json.load(f)
+    global _CONST
+    if "C14_CONST" in os.environ and _CONST is None:
+        with open(os.environ["C14_CONST"]) as f:
+            _CONST = json.load(f)
 
 
 def exec_group(item):
-    """S2 pool item: a slice of the dumped states."""
+    """S2 pool item: a slice of the dumped states (stored in the item's own file)."""
     warmup()
-    C = _TAB["const"]
+    C = _CONST
+    with open(item["file"]) as f:
+        states = json.load(f)
     mism = []
     calls = 0
     diag = 0
-    nontriv = 0
-    for idx in range(item["lo"], item["hi"]):
-        inp, res = _TAB["states"][idx]
+    for k, (inp, res) in enumerate(states):
+        idx = item["lo"] + k
         scale = SCALES[idx % len(SCALES)]
-        m, c, d = check_input(inp, res, C, scale, idx, item["light"])
+        try:
+            m, c, d = check_input(inp, res, C, scale, idx, item["light"])
+        except Exception as e:      # a public call raised on a well-formed input
+            if not _from_biotite(e):
+                raise
+            m, c, d = [{"kind": "exception", "inp": inp, "scale": scale, "variant": idx, "error": repr(e)}], 0, 0
         mism += m
         calls += c
         diag += d
-    return {"mismatch": mism, "calls": calls, "diag_cells": diag, "inputs": item["hi"] - item["lo"]}
+    return {"mismatch": mism, "calls": calls, "diag_cells": diag, "inputs": len(states)}
 
 
 # --------------------------------------------------------------------------- S3 recording
@@ -294,6 +300,35 @@ def _rand_rho(rng, big):
     return [2 * k + 1, 2]
 
 
+
+def _from_biotite(exc):
+    """True when the exception was raised inside the library (not in this driver)."""
+    import traceback
+
+    frames = traceback.extract_tb(exc.__traceback__)
+    return any("biotite" in f.filename and "/harness/" not in f.filename for f in frames)
+
+
+def _guarded(fn):
+    """An exception raised by the library on a well-formed recorded call is a disagreement, not a
+    machinery failure; an exception of the driver itself stays a driver error."""
+    import functools
+
+    @functools.wraps(fn)
+    def wrapper(item):
+        try:
+            return fn(item)
+        except Exception as e:
+            if not _from_biotite(e):
+                raise
+            import traceback
+
+            return {"events": [], "mismatch": [{"kind": "exception", "stage": "S3", "item": item, "error": repr(e),
+                                                "where": traceback.format_exc()[-600:]}]}
+    return wrapper
+
+
+@_guarded
 def gen_trace(item):
     """Build a seeded system, run the real CellList, log the calls."""
     import numpy as np
@@ -362,45 +397,51 @@ def gen_trace(item):
         return rows
 
     for _ in range(item["length"]):
-        k = rng.random()
-        as_mask = rng.random() < 0.4
-        if k < 0.55:
-            single = rng.random() < 0.25
-            m = 1 if single else rng.randint(1, 8)
-            q = [rand_q() for _ in range(m)]
-            multi = (not single) and rng.random() < 0.5
-            rho = [_rand_rho(rng, True) for _ in range(m)] if multi else [_rand_rho(rng, True)] * m
-            qa = np.array(q, dtype=dt) / scale
-            progress({"inp": inp, "scale": scale, "variant": variant, "call": "get_atoms", "q": q, "rho": rho})
-            if single:
-                out = cl.get_atoms(qa[0], radius_of(rho[0], scale), as_mask=as_mask)
-            elif multi:
-                out = cl.get_atoms(qa, np.array([radius_of(r, scale) for r in rho], dtype=dt), as_mask=as_mask)
-            else:
-                out = cl.get_atoms(qa, radius_of(rho[0], scale), as_mask=as_mask)
-            events.append({"op": "get_atoms", "q": q, "rho": rho, "got": idx_rows(out, as_mask, single),
-                           "as_mask": as_mask, "single": single, "multi": multi})
-        elif k < 0.85:
-            single = rng.random() < 0.25
-            m = 1 if single else rng.randint(1, 8)
-            q = [rand_q() for _ in range(m)]
-            multi = (not single) and rng.random() < 0.5
-            c = [rng.randint(0, 3) for _ in range(m)] if multi else [rng.randint(0, 3)] * m
-            qa = np.array(q, dtype=dt) / scale
-            progress({"inp": inp, "scale": scale, "variant": variant, "call": "get_atoms_in_cells", "q": q, "c": c})
-            if single:
-                out = cl.get_atoms_in_cells(qa[0], c[0], as_mask=as_mask)
-            elif multi:
-                out = cl.get_atoms_in_cells(qa, np.array(c, dtype=np.int32), as_mask=as_mask)
-            else:
-                out = cl.get_atoms_in_cells(qa, c[0], as_mask=as_mask)
-            events.append({"op": "cells", "q": q, "c": c, "got": idx_rows(out, as_mask, single),
-                           "as_mask": as_mask, "single": single, "multi": multi})
-        else:
-            rho = _rand_rho(rng, False)
-            progress({"inp": inp, "scale": scale, "variant": variant, "call": "create_adjacency_matrix", "rho": rho})
-            m = cl.create_adjacency_matrix(radius_of(rho, scale))
-            events.append({"op": "adjacency", "rho": rho, "got": [np.nonzero(row)[0].tolist() for row in m]})
+      try:
+          k = rng.random()
+          as_mask = rng.random() < 0.4
+          if k < 0.55:
+              single = rng.random() < 0.25
+              m = 1 if single else rng.randint(1, 8)
+              q = [rand_q() for _ in range(m)]
+              multi = (not single) and rng.random() < 0.5
+              rho = [_rand_rho(rng, True) for _ in range(m)] if multi else [_rand_rho(rng, True)] * m
+              qa = np.array(q, dtype=dt) / scale
+              progress({"inp": inp, "scale": scale, "variant": variant, "call": "get_atoms", "q": q, "rho": rho})
+              if single:
+                  out = cl.get_atoms(qa[0], radius_of(rho[0], scale), as_mask=as_mask)
+              elif multi:
+                  out = cl.get_atoms(qa, np.array([radius_of(r, scale) for r in rho], dtype=dt), as_mask=as_mask)
+              else:
+                  out = cl.get_atoms(qa, radius_of(rho[0], scale), as_mask=as_mask)
+              events.append({"op": "get_atoms", "q": q, "rho": rho, "got": idx_rows(out, as_mask, single),
+                             "as_mask": as_mask, "single": single, "multi": multi})
+          elif k < 0.85:
+              single = rng.random() < 0.25
+              m = 1 if single else rng.randint(1, 8)
+              q = [rand_q() for _ in range(m)]
+              multi = (not single) and rng.random() < 0.5
+              c = [rng.randint(0, 3) for _ in range(m)] if multi else [rng.randint(0, 3)] * m
+              qa = np.array(q, dtype=dt) / scale
+              progress({"inp": inp, "scale": scale, "variant": variant, "call": "get_atoms_in_cells", "q": q, "c": c})
+              if single:
+                  out = cl.get_atoms_in_cells(qa[0], c[0], as_mask=as_mask)
+              elif multi:
+                  out = cl.get_atoms_in_cells(qa, np.array(c, dtype=np.int32), as_mask=as_mask)
+              else:
+                  out = cl.get_atoms_in_cells(qa, c[0], as_mask=as_mask)
+              events.append({"op": "cells", "q": q, "c": c, "got": idx_rows(out, as_mask, single),
+                             "as_mask": as_mask, "single": single, "multi": multi})
+          else:
+              rho = _rand_rho(rng, False)
+              progress({"inp": inp, "scale": scale, "variant": variant, "call": "create_adjacency_matrix", "rho": rho})
+              m = cl.create_adjacency_matrix(radius_of(rho, scale))
+              events.append({"op": "adjacency", "rho": rho, "got": [np.nonzero(row)[0].tolist() for row in m]})
+      except Exception as e:      # a public call raised on a well-formed input
+        if not _from_biotite(e):
+            raise
+        return {"events": events, "mismatch": [{"kind": "exception", "stage": "S3", "inp": inp, "scale": scale,
+                                                "variant": variant, "error": repr(e)}]}
     return {"events": events}
 
 
@@ -516,14 +557,18 @@ def run(ctx):
     ctx.cov["rule"] = "an input is non-trivial when some query/radius pair has a result that is neither empty nor the whole atom set"
     ctx.nontrivial += nontrivial
     # ---- S2 ------------------------------------------------------------------------------
-    tab = os.path.join(d, "table.json")
-    with open(tab, "w") as f:
-        json.dump({"const": C, "states": states}, f)
+    cfile = os.path.join(d, "const.json")
+    with open(cfile, "w") as f:
+        json.dump(C, f)
     per = 40
-    items = [{"lo": lo, "hi": min(lo + per, len(states)), "light": bool(quick)}
-             for lo in range(0, len(states), per)]
+    items = []
+    for lo in range(0, len(states), per):
+        fn = os.path.join(d, f"s2_{lo}.json")
+        with open(fn, "w") as f:
+            json.dump(states[lo:lo + per], f)
+        items.append({"lo": lo, "file": fn, "light": bool(quick)})
     results = helpers.run_pool(ctx, "harness.drivers.c14:exec_group", items, stage="S2",
-                               env={"C14_TABLE": tab}, item_timeout=300)
+                               env={"C14_CONST": cfile}, item_timeout=600)
     calls = sum(r.get("calls", 0) for r in results)
     diag = sum(r.get("diag_cells", 0) for r in results)
     done = sum(r.get("inputs", 0) for r in results)
